@@ -259,11 +259,18 @@ def observe_term(c):
     limit = 3000 if c["engine"] == "gillespie" else int(c["t_max"] / c["dt"]) + 6
     it = 0
     flags = []
+    prog = []
     while it < limit:
         it += 1
-        if not eng.iterate():
+        alive = eng.iterate()
+        if c["engine"] == "gillespie":
+            prog.append(float(eng.get_progress()))
+        if not alive:
             break
     done = eng.is_complete()
+    # an event-driven run advances its clock with every event: iterations that report 'unfinished' and leave the clock where it was
+    # (nothing can fire any more) never end - that run does not terminate
+    stalled = (not done) and len(prog) >= 3 and prog[-1] == prog[-2] == prog[-3]
     extra = [bool(eng.iterate()) for _ in range(2)]
     out = eng.get_output()
     n1 = len(out.data.value)
@@ -284,14 +291,14 @@ def observe_term(c):
     second = [float(v) for v in out2.t.value] + [float(v) for v in out2.data.value]
     eng.finalize()
     same = it2 == it and len(first) == len(second) and all(a == b or (a != a and b != b) for a, b in zip(first, second))
-    return {"iterations": it, "complete": bool(done), "extra": extra, "ndata": [n1, n2], "clean_slate": bool(same)}
+    return {"iterations": it, "complete": bool(done), "extra": extra, "ndata": [n1, n2], "clean_slate": bool(same), "stalled": bool(stalled)}
 
 
 def emit_term(c, o):
     fixed = c["engine"] != "gillespie"
     gc = "(%s, %s, %s)" % (g_float(c["dt"]), g_float(c["t_max"]), g_bool(fixed))
     if "iterations" in o:
-        go = "(Some (%s, %s, %s))" % (g_nat(o["iterations"]), g_bool(o["complete"]), g_bool((o["complete"] and any(o["extra"])) or o["ndata"][0] != o["ndata"][1] or not o.get("clean_slate", True)))
+        go = "(Some (%s, %s, %s))" % (g_nat(o["iterations"]), g_bool(o["complete"]), g_bool((o["complete"] and any(o["extra"])) or o["ndata"][0] != o["ndata"][1] or not o.get("clean_slate", True) or o.get("stalled", False)))
     else:
         go = "None"
     return gc, go
@@ -313,6 +320,8 @@ def oracle_term(it):
             return False, name + " [%d iterations, complete=%r; expected %d]" % (o["iterations"], o["complete"], n)
     if o["complete"] and any(o["extra"]):
         return False, name + " [iterate() after completion reported 'unfinished']"
+    if o.get("stalled"):
+        return False, name + " [the event-driven run reports 'unfinished' while its clock no longer moves: it never ends]"
     if not o.get("clean_slate", True):
         return False, name + " [after finalize, a new set-up of the same script on the same object did not reproduce the run]"
     return True, name
